@@ -1045,39 +1045,38 @@ Proof.
   rewrite H2, H3. apply safe_quote_plus. exact H1.
 Qed.
 
-(* no style serializer for the path container: every case is the same function of the template *)
-Lemma template_step_pure defs tmpl : ser3 defs = [] -> template_step defs tmpl = omap (fun t2 => (tmpl, stringify_item t2)) (quote_all tmpl).
+(* a step that gives the template back makes every case the same function of the template *)
+Lemma iter_cases_pure (st : step) :
+  (forall t t' out, st t = Some (t', out) -> t' = t) -> forall n tmpl, iter_cases st n tmpl = iter_cases st 0 tmpl.
 Proof.
-  intros H. unfold template_step, serialize3. rewrite H. cbn [composed fold_right obind].
-  destruct (quote_all tmpl); reflexivity.
+  intros H n. induction n as [|n IH]; intros tmpl; [reflexivity|].
+  cbn [iter_cases]. destruct (st tmpl) as [[t' out]|] eqn:E; [|reflexivity].
+  pose proof (H _ _ _ E) as ->. rewrite IH. cbn [iter_cases]. rewrite E. reflexivity.
 Qed.
 
-Theorem coverage_pure defs n tmpl : ser3 defs = [] -> template_nth defs n tmpl = template_nth defs 0 tmpl.
+Theorem coverage_pure defs n tmpl :
+  template_nth defs n tmpl = path_output defs tmpl /\ template_query_nth defs n tmpl = query_output defs tmpl.
 Proof.
-  intros H. induction n as [|n IH]; [reflexivity|].
-  cbn [template_nth]. rewrite template_step_pure by exact H.
-  destruct (quote_all tmpl) as [t2|] eqn:E; cbn [omap]; [|reflexivity].
-  rewrite IH. cbn [template_nth]. rewrite template_step_pure by exact H. rewrite E. reflexivity.
+  unfold template_nth, template_query_nth. split.
+  - rewrite iter_cases_pure.
+    + cbn [iter_cases]. unfold template_step. destruct (path_output defs tmpl); reflexivity.
+    + unfold template_step. intros t t' out H. destruct (path_output defs t); [injection H as <- _; reflexivity | discriminate].
+  - rewrite iter_cases_pure.
+    + cbn [iter_cases]. unfold template_query_step. destruct (query_output defs tmpl); reflexivity.
+    + unfold template_query_step. intros t t' out H. destruct (query_output defs t); [injection H as <- _; reflexivity | discriminate].
 Qed.
 
-(* ... and carries the quoted value, which a form decoder maps back to the value of the template *)
+(* every case holds the quoted value, which a form decoder maps back to the value of the template *)
 Theorem coverage_case_roundtrip name s n out :
   template_nth [] n [(name, sval s)] = Some out ->
   exists q, out = [(name, sval q)] /\ quote_value s = Some q /\ pct_decode_form q = Some s.
 Proof.
-  rewrite (coverage_pure [] n _ eq_refl). cbn [template_nth]. rewrite template_step_pure by reflexivity.
-  cbn [quote_all sval]. destruct (quote_value s) as [q|] eqn:E; cbn [omap]; [|discriminate].
+  rewrite (proj1 (coverage_pure [] n _)). unfold path_output, serialize3. cbn [ser3 flat_map composed fold_right obind quote_all sval].
+  destruct (quote_value s) as [q|] eqn:E; cbn [omap]; [|discriminate].
   intros H; injection H as <-. exists q. repeat split. apply quote_value_form_roundtrip. exact E.
 Qed.
 
-Lemma coverage_case_defined name s n q :
-  quote_value s = Some q -> template_nth [] n [(name, sval s)] = Some [(name, sval q)].
-Proof.
-  intros E. rewrite (coverage_pure [] n _ eq_refl). cbn [template_nth]. rewrite template_step_pure by reflexivity.
-  cbn [quote_all sval]. rewrite E. reflexivity.
-Qed.
-
-(* the sentinel (rule before 06d349e9) and the present rule told apart by the template id = a b%c *)
+(* sentinel (b): the rule before 06d349e9 and the present rule told apart by the template id = a b%c *)
 Lemma coverage_requote_sentinel_refuted :
   let tmpl := [([105;100], sval [97;32;98;37;99])] in
   let q1 := [97;43;98;37;50;53;99] in                    (* a+b%25c *)
@@ -1089,18 +1088,27 @@ Lemma coverage_requote_sentinel_refuted :
   /\ template_nth [] 1 tmpl = Some [([105;100], sval q1)].
 Proof. cbv zeta. repeat split; try (vm_compute; reflexivity). vm_compute. discriminate. Qed.
 
-(* with a style serializer for the path container the serializer still assigns into the template:
-   label array [a; b] is .a%2Cb in the first case and ..a%2Cb in the second *)
+(* sentinel (a): the rule before fcf952d0 re-applied the style serializer to the template.
+   path label array [a; b]: .a%2Cb then ..a%2Cb;  query form object without explode {k: v}: k,v then ,k,v *)
 Definition label_arr_def : definition :=
   {| d_name := [105;100]; d_in := LPath; d_style := StLabel; d_explode := Some false; d_type := TArray; d_content := CtNone |}.
+Definition form_obj_def : definition :=
+  {| d_name := [111]; d_in := LQuery; d_style := StForm; d_explode := Some false; d_type := TObject; d_content := CtNone |}.
 Lemma coverage_serializer_reapplied_refuted :
   let tmpl := [([105;100], VArr [PStr [97]; PStr [98]])] in
-  template_nth [label_arr_def] 0 tmpl = Some [([105;100], sval [46;97;37;50;67;98])]
-  /\ template_nth [label_arr_def] 1 tmpl = Some [([105;100], sval [46;46;97;37;50;67;98])]
-  /\ obind (pct_decode [46;46;97;37;50;67;98]) (dec_value (FLabelArr false) [105;100]) <> Some (CArr [[97]; [98]]).
+  let qt := [([111], VObj [([107], PStr [118])])] in
+  template_nth_ser_inplace [label_arr_def] 0 tmpl = Some [([105;100], sval [46;97;37;50;67;98])]
+  /\ template_nth_ser_inplace [label_arr_def] 1 tmpl = Some [([105;100], sval [46;46;97;37;50;67;98])]
+  /\ obind (pct_decode [46;46;97;37;50;67;98]) (dec_value (FLabelArr false) [105;100]) <> Some (CArr [[97]; [98]])
+  /\ template_nth [label_arr_def] 0 tmpl = Some [([105;100], sval [46;97;37;50;67;98])]
+  /\ template_nth [label_arr_def] 1 tmpl = Some [([105;100], sval [46;97;37;50;67;98])]
+  /\ template_query_nth_ser_inplace [form_obj_def] 0 qt = Some [([111], sval [107;44;118])]
+  /\ template_query_nth_ser_inplace [form_obj_def] 1 qt = Some [([111], sval [44;107;44;118])]
+  /\ template_query_nth [form_obj_def] 0 qt = Some [([111], sval [107;44;118])]
+  /\ template_query_nth [form_obj_def] 1 qt = Some [([111], sval [107;44;118])].
 Proof. cbv zeta. repeat split; try (vm_compute; reflexivity). vm_compute. discriminate. Qed.
 
 Example coverage_nonvacuous :
-  template_nth [] 3 [([105;100], sval [97;32;98;37;99]); ([107], VPrim (PInt 5))]
-  = Some [([105;100], sval [97;43;98;37;50;53;99]); ([107], sval [53])].
+  template_nth [label_arr_def] 3 [([105;100], VArr [PStr [97;32;98]; PInt 5]); ([107], VPrim (PInt 5))]
+  = Some [([105;100], sval [46;97;43;98;37;50;67;53]); ([107], sval [53])].
 Proof. vm_compute. reflexivity. Qed.
